@@ -253,8 +253,164 @@ def props_reentrancy(E, res):
     return P
 
 
+# ---- tombstones: a self-destructed contract lives until the top-level message ends, then it is empty ----------------
+
+def tomb_view(E, st):
+    SF = SFe()
+    t = E.deref(fget(E, st, SF['tombstone'], 'Option<Tombstone>'))
+    n, v = variant(E, t)
+    if n != 'Some':
+        return None
+    tv = E.deref(payload(E, v, 'Some'))
+    return fget(E, tv, 0, 'u64').v, fget(E, tv, 1, 'u64').v
+
+
+def run_load_read(E):
+    rt, rtref = setup(E)
+    r = call(E, 'load', [rtref])
+    E.ctx.env['load_result'] = r
+    if not is_ok(r):
+        return r, rt
+    sysv = r.fields[('Ok', 0)]
+    cell = Cell(sysv, 'system')
+    k = mk_word(E, 'k')
+    E.ctx.env.update(dict(k=k, sys0=sysv, cell=cell))
+    g = call(E, 'get_storage', [RefV(cell, (), True), k])
+    E.ctx.env['g'] = g
+    return g, rt
+
+
+def props_load_read(E, res):
+    env = res.ctx.env
+    ctx = res.ctx
+    rt = env['rt']
+    if res.kind != 'return':
+        return [('no panic (%s)' % str(res.info)[:60], False)]
+    if not is_ok(env['load_result']) or not is_ok(res.value):
+        return [('loading and reading a stored contract does not fail', False)]
+    SF, SY = SFe(), SYSF()
+    st0 = env['st0']
+    tv = tomb_view(E, st0)
+    dead = z3.BoolVal(False) if tv is None else z3.Not(z3.And(tv[0] == rt.origin.key, tv[1] == rt.nonce))
+    from mirsym.models_fvm import key_term
+    got = res.value.fields[('Ok', 0)]
+    stored = word_view(E, E.deref(fget(E, st0, SF['contract_state'], CID)), key_term(E, env['k']))
+    ro = fget(E, env['sys0'], SY['readonly'], 'bool')
+    ro = ro if is_sym(ro) else z3.BoolVal(bool(ro))
+    rt_ro = rt.readonly if is_sym(rt.readonly) else z3.BoolVal(bool(rt.readonly))
+    P = [('a contract self-destructed in an earlier top-level message is empty: every slot reads zero', z3.Implies(dead, is_zero_word(E, got))),
+         ('and it is read-only (nothing can be written to the dead contract)', z3.Implies(dead, ro)),
+         ('a contract that is alive - no tombstone, or self-destructed in the current top-level message - keeps working: slots read their stored value',
+          z3.Implies(z3.Not(dead), word_is(E, got, stored))),
+         ('an alive contract is read-only exactly in a read-only call context', z3.Implies(z3.Not(dead), ro == rt_ro))]
+    return P
+
+
+def run_selfdestruct(E):
+    rt, rtref = setup(E, readonly=False)
+    sysv = okv(E, call(E, 'load', [rtref]), 'load failed')
+    cell = Cell(sysv, 'system')
+    xs = Cell(LazyV('xs', 'interpreter::execution::ExecutionState'), 'xs')
+    ben = mk_word(E, 'beneficiary')
+    E.ctx.env.update(dict(sys0=sysv, cell=cell, balance0=rt.balance, ben=ben))
+    SY = SYSF()
+    # an alive contract (a dead one is loaded read-only and has no code to run)
+    E.ctx.env['was_readonly'] = fget(E, sysv, SY['readonly'], 'bool')
+    # CUT (declared): the operand -> EthAddress -> Filecoin address conversions (byte-level; EthAddress layouts are decided
+    # by the Kani harnesses c20_ethaddress_*): the beneficiary becomes an arbitrary address
+    baddr = E.materialize(ADDR, 'beneficiary_addr')
+    E.ctx.env['baddr'] = baddr
+    E.cuts['<EthAddress as From>::from'] = lambda E2, c: LazyV('beneficiary_eth', 'fil_actors_evm_shared::address::EthAddress')
+    E.cuts['<Address as From>::from'] = lambda E2, c: baddr
+    fn = find_fn(E, EVM, 'selfdestruct')
+    r = E.run_function(fn, [RefV(xs, (), True), RefV(cell, (), True), E.materialize('usize', 'pc'), ben])
+    E.ctx.env['sd_result'] = r
+    if not is_ok(r):
+        return r, rt
+    fl = call(E, 'flush', [RefV(cell, (), True)])
+    return fl, rt
+
+
+def props_selfdestruct(E, res):
+    env = res.ctx.env
+    ctx = res.ctx
+    rt = env['rt']
+    if res.kind == 'early':
+        return []
+    if res.kind != 'return':
+        return [('no panic (%s)' % str(res.info)[:60], False)]
+    SF, SY = SFe(), SYSF()
+    ro = env['was_readonly']
+    ro = ro if is_sym(ro) else z3.BoolVal(bool(ro))
+    sd = env['sd_result']
+    P = []
+    if not is_ok(sd):
+        P.append(('SELFDESTRUCT fails only when read-only (dead contract) or when the transfer to the beneficiary failed',
+                  z3.Or(ro, z3.BoolVal(any(not s.ok for s in rt.sends)))))
+        sys1 = env['cell'].value
+        t1 = E.deref(fget(E, sys1, SY['tombstone'], 'Option<Tombstone>'))
+        t0 = E.deref(fget(E, env['sys0'], SY['tombstone'], 'Option<Tombstone>'))
+        P.append(('a failed SELFDESTRUCT leaves no tombstone behind', variant(E, t1)[0] == variant(E, t0)[0]))
+        return P
+    P.append(('exactly one transfer: the whole balance, as a plain send', len(rt.sends) == 1 and rt.sends[0].ok is True))
+    if rt.sends:
+        s = rt.sends[0]
+        P.append(('the balance is moved to the beneficiary in full', b_and(s.value == env['balance0'], zv(s.method) == 0)))
+        P.append(('the transfer goes to the beneficiary', addr_eq(s.to, env['baddr'])))
+    if not is_ok(res.value):
+        P.append(('the tombstone can be committed', False))
+        return P
+    st1 = heap_get(E, rt.funcs['state_root'])
+    tv = tomb_view(E, st1) if st1 is not None else None
+    P.append(('the committed state carries a tombstone of the current top-level message (origin, nonce): alive until that message ends, dead afterwards',
+              (z3.And(tv[0] == rt.origin.key, tv[1] == rt.nonce)) if tv is not None else False))
+    return P
+
+
+def run_resurrect(which):
+    def run(E):
+        rt, rtref = setup(E)
+        if which == 'create':
+            # the state root is either the empty-array cid of a fresh / placeholder actor or a stored contract state
+            if E.ctx.branch(z3.Bool('root_is_empty')):
+                rt.funcs['state_root'] = E.prog_const('EMPTY_ARR_CID') if hasattr(E, 'prog_const') else rt.funcs['state_root']
+                E.ctx.env['empty_root'] = True
+        r = call(E, which, [rtref])
+        return r, rt
+    return run
+
+
+def props_resurrect(which):
+    def props(E, res):
+        env = res.ctx.env
+        rt = env['rt']
+        if res.kind != 'return':
+            return [('no panic (%s)' % str(res.info)[:60], False)]
+        st0 = env['st0']
+        tv = tomb_view(E, st0)
+        dead = z3.BoolVal(False) if tv is None else z3.Not(z3.And(tv[0] == rt.origin.key, tv[1] == rt.nonce))
+        P = [('a deployment may take over an existing contract only if it is dead (self-destructed in an earlier message)',
+              z3.BoolVal(is_ok(res.value)) == dead)]
+        if is_ok(res.value):
+            SY = SYSF()
+            sysv = res.value.fields[('Ok', 0)]
+            P.append(('the resurrected contract starts empty with nonce 1', fget(E, sysv, SY['nonce'], 'u64').v == 1))
+        return P
+    return props
+
+
 def build(tier):
     O = []
+    from . import evm_guards
+    O += [o for o in evm_guards.build_calls(tier) if 'Delegate' in o.name]
+    O.append(Obligation('evm.System::load + get_storage [tombstone]', run_load_read, props_load_read,
+                        descr='a contract self-destructed in an earlier message reads as empty and is read-only; otherwise (no tombstone or tombstone of the current message) it keeps working',
+                        bounds='one load + one read; arbitrary stored state and message (origin, nonce)', max_paths=20000))
+    O.append(Obligation('evm.selfdestruct + flush', run_selfdestruct, props_selfdestruct,
+                        descr='SELFDESTRUCT moves the whole balance to the beneficiary and leaves a tombstone of the current message; a failed transfer leaves no tombstone',
+                        bounds='one instruction + flush; arbitrary state; the transfer may succeed, fail or hit a syscall error; CUT: operand -> address conversion (beneficiary = arbitrary address)', max_paths=20000))
+    O.append(Obligation('evm.System::resurrect', run_resurrect('resurrect'), props_resurrect('resurrect'),
+                        descr='resurrect succeeds exactly for a dead contract and yields an empty one', bounds='one call; arbitrary stored state', max_paths=5000, expect_ok=False))
     for tr in (False, True):
         O.append(Obligation('evm.System: write, call out, read back [%s]' % ('transient storage' if tr else 'storage'), run_reentrancy(tr), props_reentrancy,
                             descr='pending writes are flushed and visible at call time; after a successful call the view is what a re-entrant activation left; after a failed call or none the own view; read-only activations cannot flush writes',
